@@ -335,8 +335,8 @@ def seq_stage(tier, seed, key, P):
         job = jobs[v["id"]]
         v["fam"] = "seq/" + job["strategy"]
         v["ctx"] = "strategy=" + job["strategy"]
-        v["why"] = "[%s strategy] %s (clause of %s)" % (job["strategy"], v["why"], v["prop"])
-        v["prop"] = "C14"
+        v["why"] = "[%s strategy, sequential program] %s" % (job["strategy"], v["why"])
+        v["prop"] = "C14+" + v["prop"]
         v["key"] = P.viol_key(v)
         v["replay"] = P.write_replay(v, job)
         viols.append({k: v[k] for k in ("id", "prop", "why", "spec", "ev", "fam", "key", "replay") if k in v})
@@ -637,3 +637,8 @@ EXTRA["C01"] = c01_extra
 PROPS["C07"]["level"] = "model_checking"
 PROPS["C07"]["assumptions"] = PROPS["C07"]["assumptions"] + [
     "weak-memory clause: spec/WeakFast.tla and WeakHelp.tla (view-based, stale reads, DESIGN section 4) are model-checked with the ordering table extracted from the real code; a counterexample there is reported although it cannot be executed on this hardware"]
+
+
+# sequential programs also decide the sequential face of these properties
+for _p in ("C02", "C04", "C05", "C06", "C10", "C16"):
+    EXTRA[_p] = ([EXTRA[_p]] if _p in EXTRA and not isinstance(EXTRA[_p], list) else EXTRA.get(_p, [])) + [seq_stage]
